@@ -8,6 +8,8 @@ package v0
 
 import (
 	"errors"
+	"fmt"
+	"sort"
 	"testing"
 
 	abci "github.com/tendermint/tendermint/abci/types"
@@ -151,7 +153,8 @@ func TestVerifC12V0(t *testing.T) {
 	root := vg.NewRand(vg.Seed() ^ 0xc120)
 	cs := vg.NewCases("C12", "c12_v0", "TM.C12.Exec")
 	vg.ShardSize = 12
-	n := vg.Scale(150, 20000)
+	n := vg.Scale(300, 20000)
+	events := map[string]int{}
 	for k := 0; k < vg.C12NDirected+n; k++ {
 		id := cs.NextID()
 		if !cs.Want(id) {
@@ -161,13 +164,17 @@ func TestVerifC12V0(t *testing.T) {
 		if k < vg.C12NDirected {
 			directed = k
 		}
-		term, descr, kind, nontrivial, ok := vg.C12History(root.Fork(uint64(k)), false, directed, c12New)
+		term, descr, kind, nontrivial, ok := vg.C12History(root.Fork(uint64(k)), false, directed, c12New, events)
 		if !ok {
 			cs.Count("skipped", 1)
 			continue
 		}
 		cs.Add(id, kind, nontrivial, term, descr)
 	}
+	for k, n := range events {
+		cs.Notes = append(cs.Notes, fmt.Sprintf("%s=%d", k, n))
+	}
+	sort.Strings(cs.Notes)
 	if err := cs.Write(); err != nil {
 		t.Fatal(err)
 	}
